@@ -299,3 +299,39 @@ Proof.
   intros HL HM Hlen Hc. exact (lex_lookup_exact_of_cert_prop L rows fuel (index_cert_prop L rows fuel HL HM Hlen Hc)).
 Qed.
 End Shapes.
+
+(* ---------- several files: word numbers are positions in the concatenation in the order given ---------- *)
+Lemma index_rows_app : forall r1 r2 m i cnt,
+  index_rows m i cnt (r1 ++ r2) =
+  index_rows (index_rows m i cnt r1) (i + N.of_nat (length r1))
+             (cnt + N.of_nat (length (filter (fun r => builder_indexes (snd r)) r1))) r2.
+Proof.
+  induction r1 as [|r t IH]; intros r2 m i cnt; cbn [app index_rows length filter].
+  - replace (i + N.of_nat 0) with i by lia. replace (cnt + N.of_nat 0) with cnt by lia. reflexivity.
+  - destruct (builder_indexes (snd r)); rewrite IH; cbn [length].
+    + replace (i + 1 + N.of_nat (length t)) with (i + N.of_nat (S (length t))) by lia.
+      replace (cnt + 1 + N.of_nat (length (filter (fun r0 => builder_indexes (snd r0)) t)))
+        with (cnt + N.of_nat (S (length (filter (fun r0 => builder_indexes (snd r0)) t)))) by lia.
+      reflexivity.
+    + replace (i + 1 + N.of_nat (length t)) with (i + N.of_nat (S (length t))) by lia. reflexivity.
+Qed.
+
+Lemma read_files_spec : forall fs m i cnt,
+  fold_left read_file fs (m, i, cnt) =
+  (index_rows m i cnt (concat fs), i + N.of_nat (length (concat fs)),
+   cnt + N.of_nat (length (filter (fun r => builder_indexes (snd r)) (concat fs)))).
+Proof.
+  induction fs as [|f t IH]; intros m i cnt; cbn [fold_left concat].
+  - cbn [index_rows length filter]. f_equal; [f_equal|]; lia.
+  - change (read_file (m, i, cnt) f) with
+      (index_rows m i cnt f, i + N.of_nat (length f), cnt + N.of_nat (length (filter (fun r => builder_indexes (snd r)) f))).
+    rewrite IH. rewrite index_rows_app, app_length, filter_app, app_length.
+    replace (i + N.of_nat (length f) + N.of_nat (length (concat t))) with (i + N.of_nat (length f + length (concat t))) by lia.
+    replace (cnt + N.of_nat (length (filter (fun r => builder_indexes (snd r)) f)) + N.of_nat (length (filter (fun r => builder_indexes (snd r)) (concat t))))
+      with (cnt + N.of_nat (length (filter (fun r => builder_indexes (snd r)) f) + length (filter (fun r => builder_indexes (snd r)) (concat t)))) by lia.
+    reflexivity.
+Qed.
+
+(* reading the files one after the other = reading their concatenation in the order given *)
+Lemma read_files_concat fs : fst (fst (read_files fs)) = index_groups (concat fs).
+Proof. unfold read_files, index_groups. rewrite read_files_spec. reflexivity. Qed.
